@@ -75,10 +75,7 @@ def run(ck):
         D.check_xdecl(ck, it, "PusTcDataFieldHeader.unpack", "data", C(5))
         # version refusal
         st, m = D.prove(env.facts, binop("==", binop(">>", binop("&", T("idx", data, C(0), ty="int"), C(0xF0)), C(4)), C(2)))
-        if st == "proved":
-            ck.proved("G-REFUSE", "PusTcDataFieldHeader.unpack", "PUS version != 2 is refused", "normal return implies version nibble == 2")
-        else:
-            ck.refuted("G-REFUSE", "PusTcDataFieldHeader.unpack", "PUS version != 2 is refused", f"normal return without version == 2 ({m})")
+        ck.verdict3("G-REFUSE", "PusTcDataFieldHeader.unpack", "PUS version != 2 is refused", st, m, "normal return implies version nibble == 2")
 
     # ------------------------------------------------------------ PusTc pack, before and after setters
     kw = {k: sym(k, ty=t) for k, t in FIELDS.items()}
@@ -172,8 +169,9 @@ def run(ck):
                                    ("data_len", "sp_header.data_len", 32, 16), ("ack_flags", "pus_tc_sec_header.ack_flags", 52, 4),
                                    ("service", "service", 56, 8), ("subservice", "subservice", 64, 8), ("source_id", "source_id", 72, 16)):
             R.check_field_bits(ck, it, read_path(it, env, dec, path), data_bits_be("data", off, w), fn, f"decoded {name} == bits {off}..{off + w - 1}")
-        R.check_slice_extent(ck, read_path(it, env, dec, "app_data"), "data", Lin({}, 11), Nl - Lin({}, 2), fn, "app_data == data[11 : N-2]")
-        R.check_slice_extent(ck, read_path(it, env, dec, "crc16"), "data", Nl - Lin({}, 2), Nl, fn, "crc16 == data[N-2 : N]")
+        _sc = {}; simp = lambda v: D.simplify(D.simplify(v, env.facts, _sc), env.facts, _sc)
+        R.check_slice_extent(ck, simp(read_path(it, env, dec, "app_data")), "data", Lin({}, 11), Nl - Lin({}, 2), fn, "app_data == data[11 : N-2]")
+        R.check_slice_extent(ck, simp(read_path(it, env, dec, "crc16")), "data", Nl - Lin({}, 2), Nl, fn, "crc16 == data[N-2 : N]")
         R.check_lin_equal(ck, read_path(it, env, dec, "packet_len"), Nl, fn, "reported packet_len == N = data_len field + 7")
         # refusals
         for goal, what in ((binop(">=", N, C(13)), "declared length N < 13 (no room for secondary header and CRC) is refused"),
